@@ -176,7 +176,7 @@ def unit_format(ctx, T):
     ctx.count('DateTimeFormatUtil', len(lines))
     for l, a, m in zip(lines, impl, model):
         if a != m:
-            ctx.report('correspondence', 'format-util', '%s: implementation %s, model %s' % (l.replace('\t', ' '), a, m),
+            dtres.report(ctx, 'correspondence', 'format-util', '%s: implementation %s, model %s' % (l.replace('\t', ' '), a, m),
                        failing_input={'op': l, 'implementation': a, 'model': m})
     ctx.sample({'op': lines[1000], 'implementation': impl[1000]})
 
@@ -228,7 +228,7 @@ def unit_match_to_time(ctx, T, variant):
         fi = {'op': 'BaseTimeParser.match_to_time', 'matched_text': text, 'regex': name, 'groups': groups,
               'reference': str(ref), 'implementation': a, 'model': mo, 'property': bad}
         if a != mo:
-            ctx.report('correspondence', 'match_to_time', 'match_to_time on %r (%s) groups %r: implementation %s, model %s' % (
+            dtres.report(ctx, 'correspondence', 'match_to_time', 'match_to_time on %r (%s) groups %r: implementation %s, model %s' % (
                 text, name, groups, a, mo), failing_input=fi, property_fails=bad is not None)
         elif bad:
             zero = groups.get('hour', '').strip('0') == '' and a.startswith('0|')
@@ -302,7 +302,7 @@ def unit_resolution(ctx, T):
         if a not in ('none',) and not a.startswith('err'):
             ctx.nontriv(('res', l))
         if a != m:
-            ctx.report('correspondence', 'date_time_resolution', '%s: implementation %s, model %s' % (l.replace('\t', ' '), a, m),
+            dtres.report(ctx, 'correspondence', 'date_time_resolution', '%s: implementation %s, model %s' % (l.replace('\t', ' '), a, m),
                        failing_input={'op': l, 'implementation': a, 'model': m})
     ctx.sample({'op': lines[7], 'implementation': impl[7]})
 
@@ -369,7 +369,7 @@ def unit_merge(ctx, T, variant):
         if a.startswith('1|'):
             ctx.nontriv(('merge', src))
         if a != m:
-            ctx.report('correspondence', 'merge_date_and_time', 'merge_date_and_time(%r, %s): implementation %s, model %s' % (
+            dtres.report(ctx, 'correspondence', 'merge_date_and_time', 'merge_date_and_time(%r, %s): implementation %s, model %s' % (
                 src, ref, a, m), failing_input={'op': l, 'source': src, 'reference': str(ref), 'implementation': a, 'model': m})
     if lines:
         ctx.sample({'op': lines[3], 'implementation': impl[3]})
@@ -397,7 +397,7 @@ def emit(ctx, pending, cap=25):
     for sig, detail, fi in sorted(pending, key=lambda p: p[0] == 'hour0-unresolved'):
         n[sig] = n.get(sig, 0) + 1
         if n[sig] <= cap:
-            ctx.report('property', sig, detail, failing_input=fi, property_fails=True)
+            dtres.report(ctx, 'property', sig, detail, failing_input=fi, property_fails=True)
     for sig, k in n.items():
         ctx.extra['failures:' + sig] = ctx.extra.get('failures:' + sig, 0) + k
 
@@ -507,9 +507,30 @@ def pipeline(ctx, variant):
     ctx.sample({'query': cases[-1][1], 'reference': list(cases[-1][2]), 'expected': cases[-1][5]})
 
 
+def replay_witness(ctx, T, variant):
+    """The negative theorem's witness (clock24_hour0_unresolved: 00:30) replayed on the public API of the working tree."""
+    obs = {}
+    for q in ('00:30', 'tomorrow at 00:15'):
+        rs = T.model('en-us').parse(q, ref_dt(REFS[1]))
+        obs[q] = [(r.text, r.type_name, None if r.resolution is None else
+                   [(v.get('timex'), v.get('value')) for v in r.resolution['values']]) for r in rs]
+    ctx.extra['witness_replay'] = obs
+    want = {'00:30': [('00:30', 'datetimeV2.time', [('T00:30', '00:30:00')])],
+            'tomorrow at 00:15': [('tomorrow at 00:15', 'datetimeV2.datetime', [('2016-11-08T00:15', '2016-11-08 00:15:00')])]}
+    for q, w in want.items():
+        if obs[q] != w:
+            unresolved = len(obs[q]) == 1 and obs[q][0][2] is None
+            dtres.report(ctx, 'property', 'hour0-unresolved' if unresolved else 'hour0-witness',
+                       'parse(%r, ref %s): %r, the property demands %r (model variant of the tree: %s)' % (
+                           q, REFS[1], obs[q], w, 'if not hour' if variant == '1' else 'repaired'),
+                       failing_input={'op': 'recognize_datetime', 'culture': 'en-us', 'query': q, 'reference': list(REFS[1]),
+                                      'expected_values': w, 'observed': str(obs[q])}, property_fails=True)
+
+
 def correspond(ctx):
     T = dtres.Tree()
     variant = variant_of_tree(T)
+    replay_witness(ctx, T, variant)
     ctx.extra['hour0_variant'] = 'if not hour (00:30 unresolved)' if variant == '1' else 'repaired (is None)'
     unit_format(ctx, T)
     unit_match_to_time(ctx, T, variant)
